@@ -3,6 +3,7 @@ package mon
 import (
 	"bytes"
 	"fmt"
+	"strings"
 
 	"github.com/intuitivelabs/sipsp"
 
@@ -27,7 +28,14 @@ func parseFL(in []byte) (fl sipsp.PFLine, n int, e sipsp.ErrorHdr, pan string) {
 func parseFLChunked(in []byte) (fl sipsp.PFLine, n int, e sipsp.ErrorHdr, pan string) {
 	p, msg, _ := core.Guard(func() {
 		offs := 0
-		for c := 1; c <= len(in); c++ {
+		step := 1
+		if len(in) > 400 {
+			step = len(in)/61 + 1 // long lines: ~60 prefixes instead of every one
+		}
+		for c := 1; c <= len(in); c += step {
+			if c+step > len(in) {
+				c = len(in)
+			}
 			n, e = sipsp.ParseFLine(isoCopy(in[:c]), offs, &fl)
 			if e != sipsp.ErrHdrMoreBytes {
 				return
@@ -240,6 +248,28 @@ func RunC08(r *core.Run) {
 	})
 	st.Exhaustive = true
 	st.Space = "the 14 method names, their lower-case / first-letter / last-letter case variants and every one-edit neighbour (substitute/insert any byte value, delete, transpose) that is still a token, x 3 line ends, with rotating URI and version tokens"
+	// B2: long tokens: a method name followed by a run whose length sits at 8-/16-bit boundaries;
+	// long URI and version tokens
+	lens := []int{29, 60, 63, 64, 65, 127, 128, 250, 255, 256, 257, 258, 511, 512, 513, 1024, 4096, 32768, 65000}
+	st = r.Stage("request-lines/long-tokens", int64(len(ref.MethodList)*len(lens)*3), func(w *core.Worker, idx int64) {
+		k := lens[idx%int64(len(lens))]
+		m := ref.MethodList[(idx/int64(len(lens)))%int64(len(ref.MethodList))]
+		which := idx / int64(len(lens)*len(ref.MethodList))
+		pad := strings.Repeat(string("Xx-.!%*_+`'~9"[idx%13]), k)
+		u, v := "sip:a@b", "SIP/2.0"
+		switch which {
+		case 0:
+			m += pad // "INVITEXXXX...": an unknown method
+		case 1:
+			u += pad
+		case 2:
+			v += pad
+		}
+		checkRequestLine(w, m, u, v, eols[idx%3])
+		w.NontrivialEnum()
+	})
+	st.Exhaustive = true
+	st.Space = "every method name x a method / URI / version token stretched by 29..65000 bytes (lengths around 64, 128, 256, 512 and above)"
 	// C: random tokens
 	r.Stage("request-lines/random-tokens", r.Pick(1500000, 200000000), func(w *core.Worker, idx int64) {
 		rr := core.NewRand(r.Seed, 0xC08, 3, uint64(idx))
